@@ -262,7 +262,7 @@ def check(ctx, case):
 
 
 def part_bytes(ctx):
-    n = 100 if ctx.tier == "quick" else 2500
+    n = 300 if ctx.tier == "quick" else 2500
     hyp_run(ctx, CASE, lambda c: check(ctx, c), n, name="bytes")
 
 
